@@ -17,7 +17,13 @@ for pid in ALL:
     if not os.path.exists(os.path.join(HERE, 'props', pid + '.py')):
         na.append({'property_id': pid, 'reason': NA_REASONS.get(pid, 'check not built yet (Lean model and correspondence in progress); not claimed')})
         continue
-    m = importlib.import_module('props.' + pid)
+    try:
+        m = importlib.import_module('props.' + pid)
+        _ = (m.LEVEL_TEXT, m.LEVEL_NOTE, m.TECHNIQUE, m.REQUIRED)
+        assert os.path.exists(os.path.join(VERIF, 'evidence', pid + '.json'))
+    except Exception as e:
+        na.append({'property_id': pid, 'reason': NA_REASONS.get(pid, 'check under construction (Lean model and correspondence in progress); not claimed yet')})
+        continue
     checks.append({
         'property_id': pid,
         'quick_cmd': f'./check {pid} --tier quick',
